@@ -204,4 +204,6 @@ struct RunResult {
 // generator (gen.cpp)
 Plan generate_plan(const std::string &profile, uint64_t seed, const JV &opts);
 std::vector<std::string> list_profiles();
-Plan derive_b(const Plan &a);   // c09: re-segmented, re-batched twin of a canonical plan
+Plan derive_b(const Plan &a);
+int c15_corpus_size();
+Plan c15_scenario(int idx);   // fixed corpus for single-allocation-failure enumeration   // c09: re-segmented, re-batched twin of a canonical plan
